@@ -78,15 +78,15 @@ def buckets(tier):
                          prop_forward, {'quick': 40, 'thorough': 300}, nontrivial=_nontrivial, classes=M.base_classes))
     for fam in M.FWD_SINGLE:
         bl.append(Bucket('fwd:' + fam, (lambda fam=fam: M.meta_cases(tier, first=fam, families=M.CHEAP_TAIL, max_len=3, Dmin=2)),
-                         prop_forward, {'quick': 100 if fam in ('special', 'unp') else 20, 'thorough': 600}, nontrivial=_nontrivial,
+                         prop_forward, {'quick': 100 if fam in ('special', 'unp') else 40, 'thorough': 600}, nontrivial=_nontrivial,
                          classes=M.base_classes))
     bl.append(Bucket('fwd:compose', (lambda: M.meta_cases(tier, max_len=8, Dmin=2)), prop_forward,
-                     {'quick': 25, 'thorough': 600}, nontrivial=_nontrivial, classes=M.base_classes,
+                     {'quick': 40, 'thorough': 600}, nontrivial=_nontrivial, classes=M.base_classes,
                      shards={'quick': 6, 'thorough': 12}, weight=4.0))
     for fam in M.REV_SINGLE:
         bl.append(Bucket('rev:' + fam, (lambda fam=fam: M.meta_cases(tier, first=fam, families=M.CHEAP_TAIL, max_len=3, Dmin=2, reverse_mode=True)),
-                         prop_reverse, {'quick': 10, 'thorough': 200}, nontrivial=_nontrivial, classes=M.base_classes, weight=2.0))
+                         prop_reverse, {'quick': 25, 'thorough': 250}, nontrivial=_nontrivial, classes=M.base_classes, weight=2.0))
     bl.append(Bucket('rev:compose', (lambda: M.meta_cases(tier, max_len=8, Dmin=2, reverse_mode=True)), prop_reverse,
-                     {'quick': 20, 'thorough': 400}, nontrivial=_nontrivial, classes=M.base_classes,
+                     {'quick': 30, 'thorough': 400}, nontrivial=_nontrivial, classes=M.base_classes,
                      shards={'quick': 6, 'thorough': 12}, weight=6.0))
     return bl
